@@ -186,8 +186,46 @@ def in_class(c):
     return True
 
 
+def top_and_limit_check(res):
+    """TOP n and LIMIT m in the SAME query: the reference (find_top of rbql_engine.py, the model's `top`) lets LIMIT decide whenever it is there and always
+    validates it; both ports against the model on the same texts"""
+    import common
+    A = [['5', 'e'], ['3', 'c'], ['4', 'd'], ['1', 'a'], ['2', 'b']]
+    specs = []
+    for n in (0, 1, 3, 9):
+        for m in (0, 1, 2, 9):
+            for shape, q in (('plain', {'items': [{'e': ['a', 0]}]}), ('where', {'items': [{'e': ['a', 1]}], 'where': ['ne', ['a', 0], ['lit', '3']]}),
+                             ('order', {'items': [{'e': ['a', 0]}], 'order': [['a', 0]]}), ('distinct', {'items': [{'e': ['a', 1]}], 'distinct': 'yes'})):
+                q = dict(q); q['top'] = m
+                body = qgen.render_query({k: v for k, v in q.items() if k != 'top'}, 'py')
+                text = body.replace('SELECT', 'SELECT TOP %d' % n, 1) + ' LIMIT %d' % m
+                specs.append((q, text, qgen.render_query({k: v for k, v in q.items() if k != 'top'}, 'js').replace('SELECT', 'SELECT TOP %d' % n, 1) + ' LIMIT %d' % m))
+    lines = [engine_corr.make_line({'q': q, 'A': A, 'B': None}, lang_texts={'py': tp, 'js': tj}) for q, tp, tj in specs]
+    mout = [engine_corr.parse_out(o) for o in common.run_model(lines)]
+    for impl_name, runner, prefix in (('py', common.run_impl_py, 'query '), ('js', common.run_impl_js, 'queryjs ')):
+        outs = [engine_corr.parse_out(o) for o in runner(lines)]
+        nbad = 0
+        for (q, tp, tj), m, o in zip(specs, mout, outs):
+            res.evaluations += 1
+            res.nontrivial.add(('top+limit', impl_name, tp))
+            if engine_corr.canon_cells(o.get('rows')) != engine_corr.canon_cells(m.get('rows')) or (o.get('err') is None) != (m.get('err') is None):
+                nbad += 1
+                if nbad <= 2:
+                    res.violations.append({'property': 'C19', 'impl': impl_name, 'why': 'TOP and LIMIT in one query: LIMIT decides (reference: find_top)', 'query': tp if impl_name == 'py' else tj, 'A': A,
+                                           'model_says': m, 'impl_says': o, 'case_key': 'C19|top+limit|%s|%s' % (impl_name, tp)})
+    # a LIMIT that is not an integer is a parsing error even next to a valid TOP
+    bad_lines = [engine_corr.make_line({'q': {'items': [{'e': ['a', 0]}]}, 'A': A, 'B': None}, lang_texts={'py': t, 'js': t}) for t in ('select top 2 a1 limit zz', 'select top 1 a1 limit 1.5', 'select a1 limit')]
+    for impl_name, runner in (('py', common.run_impl_py), ('js', common.run_impl_js)):
+        for ln, o in zip(bad_lines, [engine_corr.parse_out(x) for x in runner(bad_lines)]):
+            res.evaluations += 1
+            if o.get('err') is None:
+                res.violations.append({'property': 'C19', 'impl': impl_name, 'why': 'a malformed LIMIT must be refused even when TOP is present', 'line': ln, 'impl_says': o, 'case_key': 'C19|badlimit|%s|%s' % (impl_name, ln)})
+    res.count('top_and_limit_cases', len(specs))
+
+
 def run(res, tier, seed):
     res.rule = RULE
+    top_and_limit_check(res)
     res.assumptions = ['strings restricted to BMP and sort/group keys to values whose UTF-16 order equals code-point order',
                        'only expressions that mean the same in both languages (no None/null operands of + / .length / like / split / <)']
     rnd = random.Random(seed * 104395301 + 19)
